@@ -11,11 +11,12 @@ TRUSTED = [
     'hang = the deterministic scheduler finds no enabled thread and no pending timer (real code, virtual primitives)',
     __import__('harness.scen_lane', fromlist=['LANE_TRUSTED']).LANE_TRUSTED,
     __import__('harness.scen_parreal', fromlist=['ORDER_TRUSTED']).ORDER_TRUSTED,
+    __import__('harness.scen_adapters', fromlist=['ADAPTERS_TRUSTED']).ADAPTERS_TRUSTED,
 ]
 ASSUME = [
     'a source next() call returns (one step)',
     'deadlock-freedom is a theorem for fifo_stream / Parmapper with sources raising ordinary exceptions (C05_fifo_no_deadlock); and for buffer(n >= 3) (C05_buffer3_no_deadlock); refuted for buffer(1)/(2) and BaseException sources; see Props/C05.v',
-    'AsyncBuffer / SyncIter are not covered; ParmapperAsync and process executors are not scheduled: they run for real (real-run part, watchdog)',
+    'ParmapperAsync, process executors, AsyncStream.parmap, AsyncBuffer, SyncIter and AsyncIter are not scheduled: they run for real (real-run parts, watchdog); their interleavings are what the OS / event loop produce',
 ]
 
 
@@ -101,7 +102,8 @@ def parts():
         core.Part('fifo', 'harness.scen_stream', 'fifo', 350, 6000, 'DriverFifo', ss.coq_fifo_case,
                   make_oracle('fifo'), nontrivial),
         __import__('harness.scen_lane', fromlist=['part']).part(120, 2000),
-        __import__('harness.scen_parreal', fromlist=['order_part']).order_part(21, 300),
+        __import__('harness.scen_parreal', fromlist=['order_part']).order_part(31, 300),
+        __import__('harness.scen_adapters', fromlist=['part']).part(24, 300),
     ]
 
 
@@ -116,5 +118,7 @@ def check(tier, seed, replay=None):
              'also replayed in the Coq model. non-trivial = early stop or failure present and another thread ran after shutdown began; '
              'distinct = distinct (configuration, trace). Real-run part: Stream.parmap with executor=thread/process or an async worker '
              'function under a 60 s watchdog (early stop, failing source / preprocessor / worker): the iteration and the closing of the '
-             'iterator must end, with the outputs and outcome of the model under a fair schedule',
+             'iterator must end, with the outputs and outcome of the model under a fair schedule; the same for AsyncStream.parmap in an '
+             'async environment with completing, breaking, cancelled and garbage-collected consumers (leftover tasks / pool threads are '
+             'counted), and for the adapters SyncIter / AsyncIter / AsyncBuffer against the identity-stage model',
         replay=replay)
